@@ -191,7 +191,9 @@ class C14(LoopProp):
     assumptions = A_LOOP + ["process level: the real tftpd and tftpc binaries (built from /repo on this run) on loopback; kernel socket buffers and real timers are outside the model"]
     rule = ("(a) fault-free closed-loop transfers real sender -> real receiver for file sizes around block/window boundaries x blksize {8,9,512,1428,65464} x windowsize {1,2,3,8,64,65535} x repeat {1,2}, "
             "compared with the Lean closed-loop simulator; (b) the real tftpc against the real tftpd: download/upload x {multi,single port} x {IPv4, IPv6} x sizes x (blksize, windowsize, timeout) choices x "
-            "{plain, nested, Windows-style path} and refusal kinds, comparing both files byte for byte, file names, and that a refused request creates no file; "
+"{plain, nested, Windows-style path} and refusal kinds, comparing both files byte for byte, file names, and that a refused request creates no file; "
+            "(c) the real tftpd::Client in-process against a scripted peer on loopback: its request datagram, what it adopts from the first reply (OACK with any subset/order of options, "
+            "plain ACK, ERROR, DATA), ACK 0, the acknowledgement pattern / first burst of the data phase and where the download is stored, compared with Model/Client + the worker models; "
             "non-trivial = distinct transfer")
 
     def generate(self, tier, rng):
@@ -206,7 +208,120 @@ class C14(LoopProp):
                     for rep in [1, 2]:
                         lines.append(loop_line(b, w, 5000, rep, "gen:%d:%d" % (size, (b + w) % 256)))
         lines.append(loop_line(8, 65535, 5000, 1, "gen:4000:3"))
+        lines += self.cli_cases(tier, rng)
         return list(dict.fromkeys(lines))
+
+    # --- the real bundled client (tftpd::Client) against a scripted peer: request, adoption of the first reply, first exchange
+    def cli_cases(self, tier, rng):
+        L = []
+        hx = lambda s: s.encode().hex()
+        names = ["f.bin", "sub/f.bin", "a b.txt", "sub/deep/x"]
+        n = 250 if tier == "quick" else 6000
+        for _ in range(n):
+            mode = rng.choice("du")
+            b = rng.choice([8, 9, 16, 100, 511, 512, 513, 1428, 4096])
+            w = rng.choice([1, 1, 2, 3, 4, 8])
+            t = rng.choice([1, 2, 5, 255])
+            clean = rng.choice([0, 1])
+            name = rng.choice(names)
+            r = rng.random()
+            # the peer's first reply: mostly what a conformant server would say, sometimes something else
+            ob, ow = rng.choice([b, b, b, 8, 512, max(8, b // 2)]), rng.choice([w, w, w, 1, 2])
+            if r < 0.55:
+                opts = [("blksize", ob), ("windowsize", ow)]
+                rng.shuffle(opts)
+                if rng.random() < 0.5:
+                    opts.append(("timeout", t))
+                if rng.random() < 0.5:
+                    opts.append(("tsize", rng.choice([0, 77])))
+                if rng.random() < 0.2:
+                    opts = opts[:1]
+                reply = "oack:" + ",".join("%s:%d" % o for o in opts)
+            elif r < 0.65:
+                reply, ob, ow = "oack:-", b, w
+            elif r < 0.8:
+                reply, ob, ow = "ack:%d" % rng.choice([0, 0, 1]), 512, 1
+            elif r < 0.92:
+                reply = "err:%d" % rng.randint(0, 7)
+            else:
+                reply = "data:1:%d" % rng.choice([0, 5, 512])
+            if mode == "u":
+                size = rng.choice([0, 1, ob - 1, ob, ob + 1, ow * ob, ow * ob + 3, 3 * ow * ob + 1])
+                L.append("cli u %d %d %d %d %s gen:%d:%d %s -" % (b, w, t, clean, hx(name), size, rng.randint(0, 255), reply))
+            else:
+                nfull = rng.choice([0, 1, ow - 1, ow, ow + 1, 2 * ow])
+                lens = [ob] * max(0, nfull) + ([rng.choice([0, 1, ob - 1])] if rng.random() < 0.8 else [])
+                L.append("cli d %d %d %d %d %s - %s %s" % (b, w, t, clean, hx(name), reply, ",".join(map(str, lens)) or "-"))
+        return L
+
+    def cli_oracle(self, line, impl):
+        t = line.split(" ")
+        if impl in ("abort", "panic") or not impl.startswith("req="):
+            return ("the client panicked / no observation: " + impl[:60], "cli-died")
+        o = dict(x.split("=", 1) for x in impl.split(" ; "))
+        upload = t[1] == "u"
+        b, w, tm = int(t[2]), int(t[3]), int(t[4])
+        name = bytes.fromhex(t[6])
+        size = len(content(t[7])) if t[7] != "-" else 0
+        from . import rfc
+        opts = [("blksize", b), ("windowsize", w), ("timeout", tm), ("tsize", size if upload else 0)]
+        want = ("wrq", name.split(b"/")[-1], b"octet", opts) if upload else ("rrq", name, b"octet", opts)
+        if o["req"] != rfc.hx(rfc.encode(want)):
+            return ("the client's request is not %s of %s with blksize, windowsize, timeout, tsize in this order and these values" % (
+                "WRQ" if upload else "RRQ", (name.split(b"/")[-1] if upload else name).decode()), "cli-request")
+        reply = t[8]
+        if reply.startswith("err:"):
+            if o["res"] != "err":
+                return ("the server's ERROR is not reported by the client", "cli-error-not-reported")
+            if o["file"] != "none" or o["extra"] != "-":
+                return ("a refused request left a file on the client: %s %s" % (o["file"], o["extra"]), "cli-refusal-creates-file")
+            if o["conv"] != "-":
+                return ("the client answers the server's ERROR with %s" % o["conv"], "cli-answers-error")
+        if not upload and reply.startswith("oack:"):
+            # values of the OACK are the ones the transfer uses: the blocks we sent are full blocks of the acknowledged size followed by
+            # (possibly) one short block; a completed download is stored under the basename, byte-identical
+            ob, ow = b, w
+            if reply != "oack:-":
+                for kv in reply[5:].split(","):
+                    k, v = kv.split(":")
+                    if k == "blksize":
+                        ob = int(v)
+                    if k == "windowsize":
+                        ow = int(v)
+            lens = [int(x) for x in t[9].split(",")] if t[9] != "-" else []
+            data = b"".join(gen_bytes(l, k + 1) for k, l in enumerate(lens))
+            complete = bool(lens) and lens[-1] < ob and all(l == ob for l in lens[:-1])
+            if complete:
+                if o["file"] != "%d:%d" % (len(data), fnv(data)):
+                    return ("a completed download is not stored byte-identically under <receive-directory>/<basename> (file=%s extra=%s)" % (o["file"], o["extra"]), "cli-download-file")
+                if o["extra"] != "-":
+                    return ("the download created other files: " + o["extra"], "cli-download-extra")
+                acks = o["conv"].split(" ")
+                if acks[0] != "A0":
+                    return ("the OACK is not answered with ACK 0", "cli-no-ack0")
+                if acks[-1] != "A%d" % (len(lens) % 65536):
+                    return ("the final block is not acknowledged", "cli-final-ack")
+        return None
+
+    def oracle(self, line, impl):
+        if line.startswith("cli "):
+            return self.cli_oracle(line, impl)
+        return LoopProp.oracle(self, line, impl)
+
+    def nontrivial(self, line, impl):
+        return impl.startswith("req=") if line.startswith("cli ") else LoopProp.nontrivial(self, line, impl)
+
+    def classify(self, line, impl, res):
+        if line.startswith("cli "):
+            t = line.split(" ")
+            res.count("cli:%s:%s" % (t[1], t[8].split(":")[0]))
+        else:
+            LoopProp.classify(self, line, impl, res)
+
+    def shrink(self, line):
+        return [] if line.startswith("cli ") else LoopProp.shrink(self, line)
+
+    retry_env = {"HARNESS_SLOW": "1"}
 
     def extra_checks(self, res, workdir, tier, rng):
         """real binaries"""
